@@ -102,7 +102,9 @@ DEPENDS = {
     "C13": [("c02", ["C02.R4"], "whole lines are deleted and nothing else: the byte tables of the line scanners")],
     "C14": [("c12", ["C12.R4", "C12.R5"], "whitespace changes stay at the borders: head/tail pair indices and sorted block ranges"),
             ("c04", ["C04.R2"], "whitespace changes stay at the borders: formatter ranges exist only at removed positions")],
-    "C15": [("c16", ["C16.R1", "C16.R7"], "same first and last line numbers: both list forms render the same line map, and a line is what ends in '\\n'")],
+    "C15": [("c16", ["C16.R5"], "highlighted text equal to the text of the region: nothing rewrites or trims the listed text"),
+            ("c16", ["C16.R1", "C16.R7"], "same first and last line numbers: both list forms render the same line map, and a line is what ends in '\\n'")],
+    "C16": [("c20", ["C20.R3"], "at the command line --list-json selects the JSON form for --list and for --list-all")],
     "C17": [("c03", ["C03.R4", "C03.R6"], "pending regions are built by the same strategies as ready ones: first available strategy, extents")],
     "C18": [("c20", ["C20.R1"], "the delimiters given on the command line reach the library as given")],
 }
